@@ -505,6 +505,10 @@ impl V0 {
                 };
             }
 
+            // the core may be busy sending us more events right now: it must see the channel
+            // closed instead of full, or it waits for us while we wait for it
+            drop(rx);
+
             match wb_unsub.unsubscribe(client_id, transaction_id).await {
                 Ok(()) => {
                     warn!("Subscription was not cleaned up properly!");
@@ -799,6 +803,9 @@ impl V0 {
                     break;
                 };
             }
+
+            // see subscribe()
+            drop(rx);
 
             match wb_unsub.unsubscribe_ls(client_id, transaction_id).await {
                 Ok(()) => {
